@@ -45,7 +45,7 @@ SHAPES = ['{T}', 'list[{T}]', 'Optional[{T}]', 'Union[{T}, int]', 'dict[str, {T}
 
 def generate(rng, run, tier):
     placement = rng.choice(['module', 'module', 'method', 'nested_method', 'closure'])
-    style = rng.choice(['quoted', 'quoted', 'postponed'])
+    style = rng.choice(['quoted', 'quoted', 'postponed', 'partial'])
     names = ['Early', 'Later']
     if placement == 'method':
         names += ['Outer', 'Outer']
@@ -78,11 +78,25 @@ def generate(rng, run, tier):
         events.append({'e': 'define', 'n': 'Later'})
         events.append({'e': 'call', 'x': rng.choice(objs), 'draw': 0})
         events.append({'e': 'call', 'x': 'T', 'draw': 0})
-    return {'placement': placement, 'style': style, 'text': text, 'T': t, 'U': u, 'events': events}
+    return {'placement': placement, 'style': style, 'text': text, 'T': t, 'U': u, 'events': events,
+            # the same source is executed a second time in a second module with its own classes (same names):
+            # nothing resolved or generated for the first scope may leak into the second
+            'two_scopes': rng.random() < 0.5}
+
+
+def _partial(text):
+    """Quote only the names inside an otherwise evaluated hint expression: list['Later'], Union['Later', int]."""
+    import re
+    return re.sub(r"\b(Outer\.Inner|Early|Later|Outer|Inner|Local)\b", lambda m: repr(m.group(1)), text)
 
 
 def _source(case):
-    ann = case['text'] if case['style'] == 'postponed' else repr(case['text'])
+    if case['style'] == 'postponed':
+        ann = case['text']
+    elif case['style'] == 'partial' and '|' not in case['text']:
+        ann = _partial(case['text'])
+    else:
+        ann = repr(case['text'])
     head = ['from __future__ import annotations'] if case['style'] == 'postponed' else []
     head += ['from beartype import beartype', 'from typing import Optional, Union']
     p = case['placement']
@@ -151,7 +165,23 @@ def execute(case):
         probes['closure_placements'] = 1
     if case['placement'] in ('method', 'nested_method'):
         probes['method_placements'] = 1
-    modname = 'c07_user_mod'
+    viol = None
+    for modname in (['c07_user_mod', 'c07_user_mod_b'] if case.get('two_scopes') else ['c07_user_mod']):
+        viol = _run_scope(case, modname, probes)
+        if viol:
+            if modname.endswith('_b'):
+                viol = (viol[0], 'SECOND SCOPE (same source executed in a second module with its own classes): ' + viol[1], 'scope2:' + viol[2])
+            break
+    sys.modules.pop('c07_user_mod', None)
+    sys.modules.pop('c07_user_mod_b', None)
+    return _out(case, probes, viol)
+
+
+def _run_scope(case, modname, probes):
+    import warnings
+    from beartype import beartype
+    from beartype.roar import BeartypeCallHintForwardRefException, BeartypeException
+    from sim import boot
     mod = types.ModuleType(modname)
     sys.modules[modname] = mod
     mod.__dict__['Early'] = type('Early', (), {'__module__': modname})
@@ -230,7 +260,7 @@ def execute(case):
                 try:
                     hint = eval(case['text'], ns)
                 except Exception as e:      # noqa
-                    return _out(case, probes, None, harness='twin eval failed: %r' % (e,))
+                    return ('harness_twin_eval', repr(e), 'harness')
 
                 def g(a):
                     return a
@@ -257,8 +287,8 @@ def execute(case):
                             'differs:' + case['placement'] + ':' + case['style'])
                         break
     finally:
-        sys.modules.pop(modname, None)
-    return _out(case, probes, viol)
+        pass
+    return viol
 
 
 def _out(case, probes, viol, harness=None):
